@@ -78,3 +78,86 @@ Qed.
 
 Lemma tval_eqb_eq : forall a b, tval_eqb a b = true <-> a = b.
 Proof. intros a b; split; [apply tval_eqb_true|intro H; subst b; apply tval_eqb_refl]. Qed.
+
+(* ---------- typing: inversion per value constructor (local copies, suffix _r) ---------- *)
+Lemma expand1_obj_r : expand1 (TS SObject) = ty_ObjectReference.
+Proof. reflexivity. Qed.
+
+Lemma expand1_not_obj_r : forall t, t <> TS SObject -> expand1 t = t.
+Proof. intros t H. destruct t as [[]| | | |]; try reflexivity. now elim H. Qed.
+
+Lemma has_ty_obj_r : forall v, has_ty v (TS SObject) = has_ty v ty_ObjectReference.
+Proof. intro v. destruct v; reflexivity. Qed.
+
+Lemma has_ty_num_inv_r : forall w b t, has_ty (VNum w b) t = true ->
+  exists s, t = TS s /\ scalar_width s = Some w /\ b < 2 ^ (8 * N.of_nat w).
+Proof.
+  intros w b t H. destruct t as [s| | | |]; [|discriminate H..].
+  exists s. destruct s; cbn [has_ty expand1 scalar_width ty_ObjectReference] in H; try discriminate H;
+    apply andb_true_iff in H as [H1 H2]; apply Nat.eqb_eq in H1; apply N.ltb_lt in H2; subst w; auto.
+Qed.
+
+Lemma has_ty_bool_inv_r : forall b t, has_ty (VBool b) t = true -> t = TS SBool.
+Proof. intros b t H. destruct t as [[]| | | |]; try discriminate H. reflexivity. Qed.
+
+Lemma has_ty_str_inv_r : forall s t, has_ty (VStr s) t = true ->
+  t = TS SStr /\ N.of_nat (List.length s) <= MaxStringSize.
+Proof.
+  intros s t H. destruct t as [[]| | | |]; try discriminate H.
+  cbn [has_ty expand1] in H. apply N.leb_le in H. auto.
+Qed.
+
+Lemma has_ty_list_inv_r : forall l t, has_ty (VList l) t = true ->
+  exists t', t = TList t' /\ N.of_nat (List.length l) < 2 ^ 31 /\ Forall (fun x => has_ty x t' = true) l.
+Proof.
+  intros l t H. destruct t as [[]|t'| | |]; try discriminate H.
+  cbn [has_ty expand1] in H. apply andb_true_iff in H as [H1 H2]. apply N.ltb_lt in H1.
+  exists t'. repeat split; [exact H1|]. apply Forall_forall. intros x Hx.
+  rewrite forallb_forall in H2. now apply H2.
+Qed.
+
+Lemma has_ty_map_inv_r : forall kvs t, has_ty (VMap kvs) t = true ->
+  exists tk tv, t = TMap tk tv /\ N.of_nat (List.length kvs) < 2 ^ 31 /\
+    Forall (fun kv => has_ty (fst kv) tk = true /\ has_ty (snd kv) tv = true) kvs.
+Proof.
+  intros kvs t H. destruct t as [[]| |tk tv| |]; try discriminate H.
+  cbn [has_ty expand1] in H. apply andb_true_iff in H as [H1 H2]. apply N.ltb_lt in H1.
+  exists tk, tv. repeat split; [exact H1|]. apply Forall_forall. intros x Hx.
+  rewrite forallb_forall in H2. apply andb_true_iff. now apply H2.
+Qed.
+
+Lemma has_ty_tuple_r : forall l ts, has_ty (VTup l) (TTuple ts) = true ->
+  Forall2 (fun x t => has_ty x t = true) l ts.
+Proof.
+  induction l as [|x l IH]; intros [|t ts] H; cbn [has_ty expand1] in H; try discriminate H; [constructor|].
+  apply andb_true_iff in H as [H1 H2]. constructor; [exact H1|]. apply IH. destruct l; exact H2.
+Qed.
+
+Lemma has_ty_struct_r : forall l n fs, has_ty (VTup l) (TStruct n fs) = true ->
+  Forall2 (fun x f => has_ty x (snd f) = true) l fs.
+Proof.
+  induction l as [|x l IH]; intros n [|f fs] H; cbn [has_ty expand1] in H; try discriminate H; [constructor|].
+  apply andb_true_iff in H as [H1 H2]. constructor; [exact H1|]. apply (IH n). destruct l; exact H2.
+Qed.
+
+Lemma has_ty_tup_inv_r : forall l t, has_ty (VTup l) t = true ->
+  (exists ts, t = TTuple ts /\ Forall2 (fun x t' => has_ty x t' = true) l ts)
+  \/ (exists n fs, expand1 t = TStruct n fs /\ Forall2 (fun x f => has_ty x (snd f) = true) l fs)
+  \/ (t = TS SVoid /\ l = []).
+Proof.
+  intros l t H. destruct t as [s| | |ts|n fs]; try (destruct l; discriminate H).
+  - destruct s; try (destruct l; discriminate H).
+    + right; left. rewrite has_ty_obj_r in H. unfold ty_ObjectReference in H |- *.
+      eexists; eexists; split; [reflexivity|]. eapply has_ty_struct_r. exact H.
+    + right; right. split; [reflexivity|]. destruct l as [|x l]; [reflexivity|discriminate H].
+  - left. exists ts. split; [reflexivity|]. now apply has_ty_tuple_r.
+  - right; left. exists n, fs. split; [reflexivity|]. now apply (has_ty_struct_r l n).
+Qed.
+
+Lemma has_ty_dyn_inv_r : forall t' v' t, has_ty (VDyn t' v') t = true ->
+  t = TS SValue /\ good_ty t' = true /\ N.of_nat (String.length (print t')) <= MaxStringSize /\ has_ty v' t' = true.
+Proof.
+  intros t' v' t H. destruct t as [[]| | | |]; try discriminate H.
+  cbn [has_ty expand1] in H. apply andb_true_iff in H as [H12 H3]. apply andb_true_iff in H12 as [H1 H2].
+  apply N.leb_le in H2. auto.
+Qed.
